@@ -121,7 +121,14 @@ func c09Key(c *cache.Cache) string {
 			fmt.Fprintf(&sb, "|%s=%v", f.Name, rv.Field(i).Interface())
 		}
 	}
-	// Dropped scopes that still sit behind the slice's length are NOT part of the key (including them
+	// of the dropped scopes that still sit behind the slice's length one bit is part of the key: whether the
+	// slot the NEXT Push would take holds a map with entries (an implementation that reuses it shows them)
+	if l := len(c.Cache); l < cap(c.Cache) {
+		if m := c.Cache[:l+1][l]; len(m) > 0 {
+			sb.WriteString("|next-slot-holds-entries")
+		}
+	}
+	// Dropped scopes that still sit behind the slice's length are otherwise NOT part of the key (including them
 	// multiplies the graph by 20 and no longer reaches a fixpoint), but c09Clone preserves them, so the
 	// representative of every state carries the hidden maps of the path that first reached it.
 	return sb.String()
